@@ -6,14 +6,29 @@
   (child process) is driven through its gRPC API while scripted executors answer, and every request's status,
   reply state, state afterwards and set of commanded tasks is compared with `Trans.run`.
 
-  The code — and so the faithful model — departs from the property at six corners. Each has its full-strength
-  statement as a `def …_full : Prop`, a refutation `C02_finding_<id>` on a concrete witness, a `…_partial`
-  theorem with the corner excluded by a decidable hypothesis, and (where a small repair exists) a `…_fixed`
-  theorem showing that the statement holds in full once the repair (`Cfg.fixed`) is switched on.
+  The code departed from the property at seven corners. Four were repaired in /repo by three `fix:` commits
+  (notes/C02.fix-{1,2,3}.patch): `Cfg.code` is the code as it is (tied to the source by `C02_cfg_is_code` and by the
+  differential runs), `Cfg.legacy` the code as it was. Each clause has its full-strength statement as a
+  `def …_full (cfg) : Prop`; for the repaired corners it is PROVED for the code as it is (`…_code : …_full Cfg.code`),
+  the former refutation `C02_finding_<id>` stays as a true statement about `Cfg.legacy`, and the `…_partial` theorem
+  (corner excluded by a decidable hypothesis, any configuration) stays. The three DEPLOY corners are still open:
+  full statement, refutation on a witness, `…_partial`.
 -/
 import ControlModel.Proofs.Transition
+import ControlModel.Gen.C02Facts
 
 open EnvM Trans
+
+/-! ## tie: the model's configuration of the code as it is, read off the source (go/ast, regenerated every run) -/
+
+/-- `Cfg.code` has a switch on exactly where the source has the repair: the single-response branch of BOTH
+    transitionTasks and configureTasks asks `isCriticalTarget` (fix-1); transitionTasks returns nil for no task and
+    ConfigureTransition.do waits on stateChangedCh only if it sent the message (fix-2); ControlEnvironment keeps the
+    transition's error apart from GO_ERROR's (fix-3). Reverting any of the three commits breaks this theorem. -/
+theorem C02_cfg_is_code :
+    Cfg.code = { singleUsesCritical := Gen.C02.singleBranchAsksCritical,
+                 emptyIsSuccess := Gen.C02.transitionEmptyReturnsNil && Gen.C02.configureWaitsOnlyIfSent,
+                 keepTransitionError := Gen.C02.goErrorKeepsErr } := by decide
 
 /-- The events whose body commands the tasks. -/
 def commandEv (e : Ev) : Prop := e = .CONFIGURE ∨ e = .START_ACTIVITY ∨ e = .STOP_ACTIVITY ∨ e = .RESET
@@ -44,56 +59,58 @@ theorem unacked_nonempty (ts : List Target) (h : allCriticalAcked ts = false) :
 
 /-! ## the destination is reported iff every critical task acknowledged -/
 
-/-- Full strength, about the code as it is: for EVERY list of tasks and EVERY assignment of outcomes, the body of
+/-- Full strength: for EVERY list of tasks and EVERY assignment of outcomes, the body of
     CONFIGURE / START_ACTIVITY / STOP_ACTIVITY / RESET succeeds iff every active critical task acknowledged. -/
-def C02_iff_full : Prop :=
+def C02_iff_full (cfg : Cfg) : Prop :=
   ∀ (e : Ev), commandEv e → ∀ (ps : List (Task × Outcome)),
-    (bodyFor Cfg.code e (targets ps) = .ok ↔ allCriticalAcked (targets ps) = true)
+    (bodyFor cfg e (targets ps) = .ok ↔ allCriticalAcked (targets ps) = true)
 
 /-- It holds whenever the command goes to somebody, and not to a lone non-critical task that fails
-    (for every repair configuration, in particular the code as it is). -/
+    (for every configuration, the code as it was included). -/
 theorem C02_iff_partial (cfg : Cfg) (e : Ev) (he : commandEv e) (ps : List (Task × Outcome))
     (h0 : noTargets (targets ps) = false) (h1 : singleNoncritFail (targets ps) = false) :
     bodyFor cfg e (targets ps) = .ok ↔ allCriticalAcked (targets ps) = true := by
   rw [bodyFor_ok cfg e he _ h0, classify_acked cfg _ h0 (Or.inl h1)]
 
-/-- With the repairs on, it holds in full. -/
-theorem C02_iff_fixed (e : Ev) (he : commandEv e) (ps : List (Task × Outcome)) :
-    bodyFor Cfg.fixed e (targets ps) = .ok ↔ allCriticalAcked (targets ps) = true := by
+/-- The code as it is: it holds in full. -/
+theorem C02_iff_code : C02_iff_full Cfg.code := by
+  intro e he ps
   cases h0 : noTargets (targets ps)
-  · rw [bodyFor_ok Cfg.fixed e he _ h0, classify_acked Cfg.fixed _ h0 (Or.inr rfl)]
+  · rw [bodyFor_ok Cfg.code e he _ h0, classify_acked Cfg.code _ h0 (Or.inr rfl)]
   · have : targets ps = [] := by simpa [noTargets] using h0
-    rw [this, bodyFor_empty _ _ he]; simp [Cfg.fixed, allCriticalAcked]
+    rw [this, bodyFor_empty _ _ he]; simp [Cfg.code, allCriticalAcked]
 
-/-- finding `single_target_ignores_critical`: a lone NON-critical task that answers START with an error makes the
-    transition fail. -/
-theorem C02_finding_single_target_ignores_critical : ¬ C02_iff_full := by
+/-- finding `single_target_ignores_critical` (repaired; about the code as it was): a lone NON-critical task that
+    answers START with an error makes the transition fail. -/
+theorem C02_finding_single_target_ignores_critical : ¬ C02_iff_full Cfg.legacy := by
   intro h
   have := h .START_ACTIVITY (Or.inr (Or.inl rfl)) [({ critical := false, active := true }, .errorReplyStaySrc)]
   revert this; decide
 
-/-- finding `zero_targets_error`: with no active task START fails. -/
-theorem C02_finding_zero_targets_error : ¬ C02_iff_full := by
+/-- finding `zero_targets_error` (repaired; about the code as it was): with no active task START fails. -/
+theorem C02_finding_zero_targets_error : ¬ C02_iff_full Cfg.legacy := by
   intro h
   have := h .START_ACTIVITY (Or.inr (Or.inl rfl)) []
   revert this; decide
 
-/-- finding `configure_nothing_hangs`: with no active task CONFIGURE never returns. -/
+/-- finding `configure_nothing_hangs` (repaired; about the code as it was): with no active task CONFIGURE never returns. -/
 theorem C02_finding_configure_nothing_hangs :
-    ¬ C02_iff_full ∧ bodyFor Cfg.code .CONFIGURE (targets [({ critical := true, active := false }, .ok)]) = .hang := by
+    ¬ C02_iff_full Cfg.legacy ∧
+    bodyFor Cfg.legacy .CONFIGURE (targets [({ critical := true, active := false }, .ok)]) = .hang := by
   refine ⟨fun h => ?_, by decide⟩
   have := h .CONFIGURE (Or.inl rfl) []
   revert this; decide
 
-/-- The same at the API: ControlEnvironment from a state in which the event is possible (no hooks, nothing
-    pending) answers OK with the destination state iff every active critical task acknowledged. -/
-theorem C02_iff_api_partial (cfg : Cfg) (env : Env) (e : Ev) (d : St) (he : commandEv e) (w : Bool)
+/-- From the body to the API: ControlEnvironment from a state in which the event is possible (no hooks, nothing
+    pending) answers OK with the destination state iff the body succeeds — so iff whatever the body's success is
+    equivalent to. -/
+theorem iff_api_of_body (cfg : Cfg) (env : Env) (e : Ev) (d : St) (he : commandEv e) (w : Bool)
     (hp : env.pending = []) (hd : dst? e env.st = some d) (ps : List (Task × Outcome))
-    (h0 : noTargets (targets ps) = false) (h1 : singleNoncritFail (targets ps) = false) :
+    (hiff : bodyFor cfg e (targets ps) = .ok ↔ allCriticalAcked (targets ps) = true) :
     let r := controlRpc cfg env [] e (decide (bodyFor cfg e (targets ps) = .ok)) false w
     (r.2 = true ∧ r.1.st = d) ↔ allCriticalAcked (targets ps) = true := by
   intro r
-  rw [← C02_iff_partial cfg e he ps h0 h1]
+  rw [← hiff]
   have hdne : d ≠ .ERROR := by
     rcases he with rfl | rfl | rfl | rfl <;> (revert hd; cases env.st <;> simp [dst?] <;> (intro h; subst h; decide))
   by_cases hb : bodyFor cfg e (targets ps) = .ok
@@ -110,9 +127,25 @@ theorem C02_iff_api_partial (cfg : Cfg) (env : Env) (e : Ev) (d : St) (he : comm
     · rintro ⟨_, h⟩; rw [this] at h; exact absurd h.symm hdne
     · intro h; exact absurd h hb
 
+/-- The same at the API, any configuration: ControlEnvironment answers OK with the destination state iff every active
+    critical task acknowledged — the two task-level corners excluded. -/
+theorem C02_iff_api_partial (cfg : Cfg) (env : Env) (e : Ev) (d : St) (he : commandEv e) (w : Bool)
+    (hp : env.pending = []) (hd : dst? e env.st = some d) (ps : List (Task × Outcome))
+    (h0 : noTargets (targets ps) = false) (h1 : singleNoncritFail (targets ps) = false) :
+    let r := controlRpc cfg env [] e (decide (bodyFor cfg e (targets ps) = .ok)) false w
+    (r.2 = true ∧ r.1.st = d) ↔ allCriticalAcked (targets ps) = true :=
+  iff_api_of_body cfg env e d he w hp hd ps (C02_iff_partial cfg e he ps h0 h1)
+
+/-- The code as it is, at the API, in full: for every task list and outcome assignment, whoever wins the mutex. -/
+theorem C02_iff_api_code (env : Env) (e : Ev) (d : St) (he : commandEv e) (w : Bool)
+    (hp : env.pending = []) (hd : dst? e env.st = some d) (ps : List (Task × Outcome)) :
+    let r := controlRpc Cfg.code env [] e (decide (bodyFor Cfg.code e (targets ps) = .ok)) false w
+    (r.2 = true ∧ r.1.st = d) ↔ allCriticalAcked (targets ps) = true :=
+  iff_api_of_body Cfg.code env e d he w hp hd ps (C02_iff_code e he ps)
+
 /-! ## a critical task that does not acknowledge: never reported, and the environment ends in ERROR -/
 
-/-- In full, for every repair configuration: if some active critical task does not acknowledge, the body fails. -/
+/-- In full, for every configuration: if some active critical task does not acknowledge, the body fails. -/
 theorem C02_unacked_never_reported (cfg : Cfg) (e : Ev) (he : commandEv e) (ts : List Target)
     (h : allCriticalAcked ts = false) : bodyFor cfg e ts ≠ .ok := by
   obtain ⟨h0, h1⟩ := unacked_nonempty ts h
@@ -135,21 +168,22 @@ theorem C02_unacked_ends_error (cfg : Cfg) (hooks : List Hook) (env : Env) (e : 
 /-! ## …and the request returns an error -/
 
 /-- Full strength: a request whose critical tasks did not all acknowledge answers with an error status. -/
-def C02_fail_returns_error_full : Prop :=
+def C02_fail_returns_error_full (cfg : Cfg) : Prop :=
   ∀ (env : Env) (e : Ev) (d : St) (w : Bool) (ts : List Target), commandEv e → env.pending = [] →
     dst? e env.st = some d → allCriticalAcked ts = false →
-    (controlRpc Cfg.code env [] e (decide (bodyFor Cfg.code e ts = .ok)) false w).2 = false
+    (controlRpc cfg env [] e (decide (bodyFor cfg e ts = .ok)) false w).2 = false
 
-/-- finding `rpc_ok_on_failed_transition`: the handler overwrites the transition's error with the result of the
-    GO_ERROR it performs next; GO_ERROR succeeds, so the status is OK (and the reply says ERROR). -/
-theorem C02_finding_rpc_ok_on_failed_transition : ¬ C02_fail_returns_error_full := by
+/-- finding `rpc_ok_on_failed_transition` (repaired; about the code as it was): the handler overwrote the
+    transition's error with the result of the GO_ERROR it performs next; GO_ERROR succeeds, so the status was OK (and
+    the reply said ERROR). -/
+theorem C02_finding_rpc_ok_on_failed_transition : ¬ C02_fail_returns_error_full Cfg.legacy := by
   intro h
   have := h { st := .CONFIGURED } .START_ACTIVITY .RUNNING false [(true, .errorReplyStaySrc)]
     (Or.inr (Or.inl rfl)) rfl rfl rfl
   revert this; decide
 
-/-- As the code is, an error status comes back only by accident: when the environment's own watcher performed
-    GO_ERROR first, so that the handler's GO_ERROR is refused. -/
+/-- Any configuration (as the code was, an error status came back only by this accident): when the environment's own
+    watcher performed GO_ERROR first, so that the handler's GO_ERROR is refused, the status is an error. -/
 theorem C02_fail_returns_error_partial (cfg : Cfg) (env : Env) (e : Ev) (d : St) (ts : List Target)
     (he : commandEv e) (hp : env.pending = []) (hd : dst? e env.st = some d)
     (h : allCriticalAcked ts = false) :
@@ -168,19 +202,24 @@ theorem C02_fail_returns_error_partial (cfg : Cfg) (env : Env) (e : Ev) (d : St)
   rw [fsmEvent_illegal _ _ _ _ _ (by rw [hw]; rfl)]
   cases cfg.keepTransitionError <;> rfl
 
-/-- With the repair on, an error status always comes back. -/
-theorem C02_fail_returns_error_fixed (hooks : List Hook) (env : Env) (e : Ev) (he : commandEv e) (rnFail w : Bool)
+/-- The code as it is: an error status always comes back — for ALL hook sets, environments (whatever is pending,
+    whether or not the event is possible), run-number failures and mutex winners. -/
+theorem C02_fail_returns_error_code_any_hooks (hooks : List Hook) (env : Env) (e : Ev) (he : commandEv e) (rnFail w : Bool)
     (ts : List Target) (h : allCriticalAcked ts = false) :
-    (controlRpc Cfg.fixed env hooks e (decide (bodyFor Cfg.fixed e ts = .ok)) rnFail w).2 = false := by
-  rw [decide_eq_false (C02_unacked_never_reported Cfg.fixed e he ts h)]
+    (controlRpc Cfg.code env hooks e (decide (bodyFor Cfg.code e ts = .ok)) rnFail w).2 = false := by
+  rw [decide_eq_false (C02_unacked_never_reported Cfg.code e he ts h)]
   unfold controlRpc
-  simp [fsmEvent_body_fails env hooks e rnFail, tryTransition, Cfg.fixed]
+  simp [fsmEvent_body_fails env hooks e rnFail, tryTransition, Cfg.code]
+
+/-- …in particular the full-strength clause holds of the code as it is. -/
+theorem C02_fail_returns_error_code : C02_fail_returns_error_full Cfg.code :=
+  fun env e _ w ts he _ _ h => C02_fail_returns_error_code_any_hooks [] env e he false w ts h
 
 /-! ## failures confined to non-critical tasks are harmless -/
 
-def C02_noncritical_harmless_full : Prop :=
+def C02_noncritical_harmless_full (cfg : Cfg) : Prop :=
   ∀ (e : Ev), commandEv e → ∀ (ps : List (Task × Outcome)),
-    (∀ t ∈ targets ps, t.2 ≠ .ok → t.1 = false) → bodyFor Cfg.code e (targets ps) = .ok
+    (∀ t ∈ targets ps, t.2 ≠ .ok → t.1 = false) → bodyFor cfg e (targets ps) = .ok
 
 theorem harmless_acked (ts : List Target) (h : ∀ t ∈ ts, t.2 ≠ .ok → t.1 = false) : allCriticalAcked ts = true := by
   simp only [allCriticalAcked, List.all_eq_true]
@@ -194,12 +233,12 @@ theorem C02_noncritical_harmless_partial (cfg : Cfg) (e : Ev) (he : commandEv e)
     (h : ∀ t ∈ targets ps, t.2 ≠ .ok → t.1 = false) : bodyFor cfg e (targets ps) = .ok :=
   (C02_iff_partial cfg e he ps h0 h1).2 (harmless_acked _ h)
 
-theorem C02_noncritical_harmless_fixed (e : Ev) (he : commandEv e) (ps : List (Task × Outcome))
-    (h : ∀ t ∈ targets ps, t.2 ≠ .ok → t.1 = false) : bodyFor Cfg.fixed e (targets ps) = .ok :=
-  (C02_iff_fixed e he ps).2 (harmless_acked _ h)
+/-- The code as it is: failures confined to non-critical tasks never fail a transition. -/
+theorem C02_noncritical_harmless_code : C02_noncritical_harmless_full Cfg.code :=
+  fun e he ps h => (C02_iff_code e he ps).2 (harmless_acked _ h)
 
-/-- The single-target corner refutes this clause too. -/
-theorem C02_finding_single_target_harms : ¬ C02_noncritical_harmless_full := by
+/-- The single-target corner refuted this clause too (repaired; about the code as it was). -/
+theorem C02_finding_single_target_harms : ¬ C02_noncritical_harmless_full Cfg.legacy := by
   intro h
   have := h .STOP_ACTIVITY (Or.inr (Or.inr (Or.inl rfl))) [({ critical := false, active := true }, .silent)]
     (by decide)
@@ -207,20 +246,22 @@ theorem C02_finding_single_target_harms : ¬ C02_noncritical_harmless_full := by
 
 /-! ## a transition with nothing to command succeeds at once -/
 
-def C02_empty_succeeds_full : Prop := ∀ (e : Ev), commandEv e → bodyFor Cfg.code e [] = .ok
+def C02_empty_succeeds_full (cfg : Cfg) : Prop := ∀ (e : Ev), commandEv e → bodyFor cfg e [] = .ok
 
-/-- What the code does instead (exactly): CONFIGURE never returns, the others fail. -/
-theorem C02_empty_code (e : Ev) (he : commandEv e) :
-    bodyFor Cfg.code e [] = if e = .CONFIGURE then .hang else .error := by
+/-- What the code did instead (exactly): CONFIGURE never returned, the others failed. -/
+theorem C02_empty_legacy (e : Ev) (he : commandEv e) :
+    bodyFor Cfg.legacy e [] = if e = .CONFIGURE then .hang else .error := by
   rw [bodyFor_empty _ _ he]; rfl
 
-theorem C02_finding_zero_targets : ¬ C02_empty_succeeds_full := by
+/-- (repaired; about the code as it was) -/
+theorem C02_finding_zero_targets : ¬ C02_empty_succeeds_full Cfg.legacy := by
   intro h
   have := h .RESET (Or.inr (Or.inr (Or.inr rfl)))
   revert this; decide
 
-theorem C02_empty_succeeds_fixed (e : Ev) (he : commandEv e) : bodyFor Cfg.fixed e [] = .ok := by
-  rw [bodyFor_empty _ _ he]; rfl
+/-- The code as it is: a transition with nothing to command succeeds at once. -/
+theorem C02_empty_succeeds_code : C02_empty_succeeds_full Cfg.code := by
+  intro e he; rw [bodyFor_empty _ _ he]; rfl
 
 /-- "Nothing to command" is decided by `GetActiveTasks`: tasks whose role is not ACTIVE are not commanded, and what
     is scripted for them is irrelevant. -/
@@ -301,10 +342,12 @@ theorem C02_finding_deploy_notification_lost : ¬ C02_deploy_iff_full := by
   have := h [(true, .ok)] 0 true
   revert this; decide
 
-/-! ## the corners are exhaustive; with the repairs the Spec holds
+/-! ## the corners are exhaustive; outside the DEPLOY corners the Spec holds of the code as it is
 
   `Trans.judge` (Spec/C02.lean) is the decidable predicate the correspondence harness evaluates on what the real
-  core did. Here it is evaluated on what the MODEL does, for every scenario. -/
+  core did; `Trans.judgeAll` is the same verdict with the repaired corners still named. Here they are evaluated on
+  what the MODEL does, for every scenario: `judgeAll` on the code as it was (`C02_corners_exhaustive_legacy`),
+  `judge` on the code as it is (`C02_spec_code`, `C02_corners_exhaustive`). -/
 
 /-- The verdict names a recorded corner (or there is no violation). -/
 def Named (r : Option String) : Prop := r ≠ some "-"
@@ -315,7 +358,7 @@ theorem commands_iff (e : Ev) : commands e = true ↔ commandEv e := by
 theorem dst_ne_error (e : Ev) (he : commandEv e) (s d : St) (hd : dst? e s = some d) : d ≠ .ERROR := by
   rcases he with rfl | rfl | rfl | rfl <;> (revert hd; cases s <;> simp [dst?] <;> (intro h; subst h; decide))
 
-theorem bodyFor_hang (e : Ev) (ts : List Target) (h : bodyFor Cfg.code e ts = .hang) : e = .CONFIGURE ∧ ts = [] := by
+theorem bodyFor_hang (e : Ev) (ts : List Target) (h : bodyFor Cfg.legacy e ts = .hang) : e = .CONFIGURE ∧ ts = [] := by
   cases e <;> simp only [bodyFor, commandBody, configureBody] at h
   case CONFIGURE =>
     refine ⟨rfl, ?_⟩
@@ -412,9 +455,9 @@ theorem unacked_body (cfg : Cfg) (e : Ev) (he : commandEv e) (ts : List Target)
   · exact absurd hb (C02_unacked_never_reported cfg e he ts ha)
   · rfl
 
-/-- Along any sequence of requests the model (code as it is) violates the Spec only inside a recorded corner. -/
+/-- Along any sequence of requests the model of the code as it was violates the Spec only inside a recorded corner. -/
 theorem steps_named (steps : List SStep) : ∀ (env : Env) (tasks : List Task), env.pending = [] →
-    Named (judgeSteps env.st tasks steps (runSteps Cfg.code env tasks steps)) := by
+    Named (judgeSteps env.st tasks steps (runSteps Cfg.legacy env tasks steps)) := by
   induction steps with
   | nil => intro env tasks _; simp [judgeSteps, Named]
   | cons s rest ih =>
@@ -437,10 +480,10 @@ theorem steps_named (steps : List SStep) : ∀ (env : Env) (tasks : List Task), 
         split <;> simp [judgeSteps, hc, hd, Named]
       | some d =>
         have hdne := dst_ne_error e he env.st d hd
-        cases hb : bodyFor Cfg.code e (targets (pair tasks outs)) with
+        cases hb : bodyFor Cfg.legacy e (targets (pair tasks outs)) with
         | hang =>
           obtain ⟨_, hts⟩ := bodyFor_hang e _ hb
-          have hcs := controlStep_hang Cfg.code env tasks e d outs w hd hb
+          have hcs := controlStep_hang Cfg.legacy env tasks e d outs w hd hb
           simp only [runSteps, hcs]
           simp only [show (Rpc.hang = Rpc.ok) = False from by simp, false_and, ↓reduceIte]
           simp only [judgeSteps, hc, hd, hts, Bool.not_true, Bool.false_eq_true, ↓reduceIte]
@@ -450,8 +493,8 @@ theorem steps_named (steps : List SStep) : ∀ (env : Env) (tasks : List Task), 
           | some h => simpa using this
           | none => simp [reached, Named]
         | ok =>
-          have hcs := controlStep_ok Cfg.code env tasks e d outs w hp hd hb
-          have ha := unacked_body Cfg.code e he _ hb
+          have hcs := controlStep_ok Cfg.legacy env tasks e d outs w hp hd hb
+          have ha := unacked_body Cfg.legacy e he _ hb
           have hf := fsmEvent_nohooks env e d true hp hd
           have hj := judgeCtl_ok e d (targets (pair tasks outs)) (cmdIdx tasks) ha
           simp only [runSteps, hcs]
@@ -465,14 +508,14 @@ theorem steps_named (steps : List SStep) : ∀ (env : Env) (tasks : List Task), 
             simp only [reached, decide_true, Bool.and_self, ↓reduceIte, judgeSteps_no_obs]
             exact named_none
         | error =>
-          obtain ⟨k, hk⟩ := controlStep_error Cfg.code env tasks e d outs w hd hb
+          obtain ⟨k, hk⟩ := controlStep_error Cfg.legacy env tasks e d outs w hd hb
           have hcorner : allCriticalAcked (targets (pair tasks outs)) = true →
               noTargets (targets (pair tasks outs)) = true ∨ singleNoncritFail (targets (pair tasks outs)) = true :=
-            fun ha => error_acked_corner Cfg.code e he _ (by rw [hb]; decide) ha
+            fun ha => error_acked_corner Cfg.legacy e he _ (by rw [hb]; decide) ha
           have hj := judgeCtl_error e d hdne (targets (pair tasks outs)) (cmdIdx tasks) k hcorner
           simp only [runSteps]
-          have hnot : ¬ ((controlStep Cfg.code env tasks e outs w).1.rpc = Rpc.ok ∧
-              (controlStep Cfg.code env tasks e outs w).1.state = dst? e env.st ∧ (dst? e env.st).isSome = true) := by
+          have hnot : ¬ ((controlStep Cfg.legacy env tasks e outs w).1.rpc = Rpc.ok ∧
+              (controlStep Cfg.legacy env tasks e outs w).1.state = dst? e env.st ∧ (dst? e env.st).isSome = true) := by
             rw [hk, hd]; intro h; cases k <;> simp at h
             exact hdne h.symm
           simp only [hnot, false_and, ↓reduceIte]
@@ -505,8 +548,8 @@ theorem new_env_ok (d : Env) (hd : d = (tryTransition ({} : Env) [] .DEPLOY true
   exact ⟨h2.1, by simpa [tryTransition] using h2.2.2⟩
 
 theorem create_named (wf : Workflow) (outs : List Outcome) :
-    Named (judgeNew wf (targets (pair (tasks0 wf) outs)) (createEnvironment Cfg.code wf outs).1) ∧
-    (∀ env tasks, (createEnvironment Cfg.code wf outs).2 = some (env, tasks) →
+    Named (judgeNew wf (targets (pair (tasks0 wf) outs)) (createEnvironment Cfg.legacy wf outs).1) ∧
+    (∀ env tasks, (createEnvironment Cfg.legacy wf outs).2 = some (env, tasks) →
       env.pending = [] ∧ env.st = .CONFIGURED ∧ tasks = afterCommand (tasks0 wf) outs) := by
   unfold createEnvironment
   cases hdep : deployBody wf.tasks wf.calls wf.notifyLost with
@@ -528,7 +571,7 @@ theorem create_named (wf : Workflow) (outs : List Outcome) :
     simp only
     have hl := deploy_ok_launched _ _ _ hdep
     have henv := new_env_ok _ rfl
-    cases hb : configureBody Cfg.code (targets (pair (tasks0 wf) outs)) with
+    cases hb : configureBody Cfg.legacy (targets (pair (tasks0 wf) outs)) with
     | hang =>
       have hts : targets (pair (tasks0 wf) outs) = [] := (bodyFor_hang .CONFIGURE _ hb).2
       simp only [tasks0] at hb hts
@@ -544,8 +587,8 @@ theorem create_named (wf : Workflow) (outs : List Outcome) :
       refine ⟨?_, by intro _ _ h; cases h⟩
       cases ha : allCriticalAcked (targets (pair (tasks0 wf) outs))
       · simp [judgeNew, hl, ha, Trans.reqOk, Named]
-      · have hcorner := error_acked_corner Cfg.code .CONFIGURE (Or.inl rfl) _
-          (show bodyFor Cfg.code .CONFIGURE (targets (pair (tasks0 wf) outs)) ≠ .ok by
+      · have hcorner := error_acked_corner Cfg.legacy .CONFIGURE (Or.inl rfl) _
+          (show bodyFor Cfg.legacy .CONFIGURE (targets (pair (tasks0 wf) outs)) ≠ .ok by
             simp only [bodyFor, tasks0, hb]; decide) ha
         rcases hcorner with hc | hc <;>
           cases h0 : emptyWorkflow wf <;> cases h2 : earlyRunning wf.tasks <;> cases h1 : noncritLaunchFail wf.tasks <;>
@@ -555,7 +598,7 @@ theorem create_named (wf : Workflow) (outs : List Outcome) :
       simp only [tasks0] at hb
       simp only [hb]
       have ha : allCriticalAcked (targets (pair (tasks0 wf) outs)) = true :=
-        unacked_body Cfg.code .CONFIGURE (Or.inl rfl) _ (by simp only [bodyFor, tasks0, hb])
+        unacked_body Cfg.legacy .CONFIGURE (Or.inl rfl) _ (by simp only [bodyFor, tasks0, hb])
       refine ⟨?_, ?_⟩
       · simp [judgeNew, hl, ha, Trans.reqOk, henv.2, Named]
       · intro env tasks h
@@ -567,8 +610,8 @@ theorem create_named (wf : Workflow) (outs : List Outcome) :
 theorem judge_cons (sc : Scenario) (o : Obs) (os : List Obs)
     (hn : Named (judgeNew sc.wf (targets (pair (tasks0 sc.wf) sc.configure)) o))
     (hos : Named (judgeSteps .CONFIGURED (afterCommand (tasks0 sc.wf) sc.configure) sc.steps os)) :
-    Named (judge sc (o :: os)) := by
-  simp only [judge]
+    Named (judgeAll sc (o :: os)) := by
+  simp only [judgeAll]
   simp only [tasks0] at hn hos
   revert hn
   generalize judgeNew sc.wf _ _ = r
@@ -581,17 +624,16 @@ theorem judge_cons (sc : Scenario) (o : Obs) (os : List Obs)
     · exact hos
     · exact named_none
 
-/-- The recorded corners are EXHAUSTIVE: for every workflow, every outcome assignment and every request sequence,
-    whenever what the model of the code does is rejected by Spec.C02, the scenario lies in one of the named corners
-    (the verdict is never the anonymous "-"). With the correspondence run (model = implementation) this is what makes
-    "only KNOWN-FINDING lines" a complete account. -/
-theorem C02_corners_exhaustive (sc : Scenario) : judge sc (run Cfg.code sc) ≠ some "-" := by
+/-- About the code as it was: the seven recorded corners were EXHAUSTIVE — for every workflow, every outcome
+    assignment and every request sequence, whenever what the model of the legacy code does is rejected by Spec.C02, the
+    scenario lies in one of the named corners (the verdict with all corners named is never the anonymous "-"). -/
+theorem C02_corners_exhaustive_legacy (sc : Scenario) : judgeAll sc (run Cfg.legacy sc) ≠ some "-" := by
   obtain ⟨hn, hsome⟩ := create_named sc.wf sc.configure
-  have hnil : Named (judge sc [(createEnvironment Cfg.code sc.wf sc.configure).1]) :=
+  have hnil : Named (judgeAll sc [(createEnvironment Cfg.legacy sc.wf sc.configure).1]) :=
     judge_cons sc _ [] hn (by rw [judgeSteps_no_obs]; exact named_none)
   unfold run
   simp only
-  cases hc : (createEnvironment Cfg.code sc.wf sc.configure).2 with
+  cases hc : (createEnvironment Cfg.legacy sc.wf sc.configure).2 with
   | none => exact hnil
   | some p =>
     obtain ⟨env, tasks⟩ := p
@@ -605,41 +647,41 @@ theorem C02_corners_exhaustive (sc : Scenario) : judge sc (run Cfg.code sc) ≠ 
       rw [← ht]
       exact this
 
-/-! ### with the repairs on, the Spec holds -/
+/-! ### the code as it is: the Spec holds outside the DEPLOY corners, and nothing else is left -/
 
 theorem ite_ne_hang (c : Prop) [Decidable c] : (if c then BodyRes.ok else BodyRes.error) ≠ .hang := by
   split <;> simp
 
-theorem bodyFor_fixed_not_hang (e : Ev) (ts : List Target) : bodyFor Cfg.fixed e ts ≠ .hang := by
-  cases e <;> simp only [bodyFor, commandBody, configureBody, Cfg.fixed, ↓reduceIte]
+theorem bodyFor_code_not_hang (e : Ev) (ts : List Target) : bodyFor Cfg.code e ts ≠ .hang := by
+  cases e <;> simp only [bodyFor, commandBody, configureBody, Cfg.code, ↓reduceIte]
   case CONFIGURE =>
     by_cases h : ts.isEmpty = true
     · simp [h]
     · simp only [h, Bool.false_eq_true, ↓reduceIte]; exact ite_ne_hang _
   all_goals first | exact ite_ne_hang _ | decide
 
-theorem controlRpc_fixed_err (env : Env) (hooks : List Hook) (e : Ev) (r w : Bool) :
-    (controlRpc Cfg.fixed env hooks e false r w).2 = false := by
+theorem controlRpc_code_err (env : Env) (hooks : List Hook) (e : Ev) (r w : Bool) :
+    (controlRpc Cfg.code env hooks e false r w).2 = false := by
   unfold controlRpc
-  simp [fsmEvent_body_fails env hooks e r, tryTransition, Cfg.fixed]
+  simp [fsmEvent_body_fails env hooks e r, tryTransition, Cfg.code]
 
-theorem controlStep_error_fixed (env : Env) (tasks : List Task) (e : Ev) (d : St) (outs : List Outcome) (w : Bool)
+theorem controlStep_error_code (env : Env) (tasks : List Task) (e : Ev) (d : St) (outs : List Outcome) (w : Bool)
     (hd : dst? e env.st = some d)
-    (hb : bodyFor Cfg.fixed e (targets (pair tasks outs)) = .error) :
-    (controlStep Cfg.fixed env tasks e outs w).1 =
+    (hb : bodyFor Cfg.code e (targets (pair tasks outs)) = .error) :
+    (controlStep Cfg.code env tasks e outs w).1 =
       { ev := some e, rpc := .err, state := none, after := some .ERROR, cmd := cmdIdx tasks } := by
   have hf := fsmEvent_body_fails env [] e false
-  have hst := controlRpc_failed_error Cfg.fixed env [] e false false w hf
-  have hr := controlRpc_fixed_err env [] e false w
+  have hst := controlRpc_failed_error Cfg.code env [] e false false w hf
+  have hr := controlRpc_code_err env [] e false w
   unfold controlStep
   simp [hd, hb, hst, hr]
 
-theorem iff_fixed_ts (e : Ev) (he : commandEv e) (tasks : List Task) (outs : List Outcome) :
-    bodyFor Cfg.fixed e (targets (pair tasks outs)) = .ok ↔ allCriticalAcked (targets (pair tasks outs)) = true :=
-  C02_iff_fixed e he (pair tasks outs)
+theorem iff_code_ts (e : Ev) (he : commandEv e) (tasks : List Task) (outs : List Outcome) :
+    bodyFor Cfg.code e (targets (pair tasks outs)) = .ok ↔ allCriticalAcked (targets (pair tasks outs)) = true :=
+  C02_iff_code e he (pair tasks outs)
 
-theorem steps_fixed (steps : List SStep) : ∀ (env : Env) (tasks : List Task), env.pending = [] →
-    judgeSteps env.st tasks steps (runSteps Cfg.fixed env tasks steps) = none := by
+theorem steps_code (steps : List SStep) : ∀ (env : Env) (tasks : List Task), env.pending = [] →
+    judgeSteps env.st tasks steps (runSteps Cfg.code env tasks steps) = none := by
   induction steps with
   | nil => intro env tasks _; simp [judgeSteps]
   | cons s rest ih =>
@@ -662,11 +704,11 @@ theorem steps_fixed (steps : List SStep) : ∀ (env : Env) (tasks : List Task), 
         split <;> simp [judgeSteps, hc, hd]
       | some d =>
         have hdne := dst_ne_error e he env.st d hd
-        cases hb : bodyFor Cfg.fixed e (targets (pair tasks outs)) with
-        | hang => exact absurd hb (bodyFor_fixed_not_hang _ _)
+        cases hb : bodyFor Cfg.code e (targets (pair tasks outs)) with
+        | hang => exact absurd hb (bodyFor_code_not_hang _ _)
         | ok =>
-          have hcs := controlStep_ok Cfg.fixed env tasks e d outs w hp hd hb
-          have ha := (iff_fixed_ts e he tasks outs).1 hb
+          have hcs := controlStep_ok Cfg.code env tasks e d outs w hp hd hb
+          have ha := (iff_code_ts e he tasks outs).1 hb
           have hf := fsmEvent_nohooks env e d true hp hd
           have hj := judgeCtl_ok e d (targets (pair tasks outs)) (cmdIdx tasks) ha
           simp only [runSteps, hcs]
@@ -679,23 +721,34 @@ theorem steps_fixed (steps : List SStep) : ∀ (env : Env) (tasks : List Task), 
           · simp only [judgeSteps, hc, hd, Bool.not_true, Bool.false_eq_true, ↓reduceIte, hj]
             simp only [reached, decide_true, Bool.and_self, ↓reduceIte, judgeSteps_no_obs]
         | error =>
-          have hk := controlStep_error_fixed env tasks e d outs w hd hb
+          have hk := controlStep_error_code env tasks e d outs w hd hb
           have ha : allCriticalAcked (targets (pair tasks outs)) = false := by
             cases h : allCriticalAcked (targets (pair tasks outs))
             · rfl
-            · have := (iff_fixed_ts e he tasks outs).2 h; rw [hb] at this; cases this
+            · have := (iff_code_ts e he tasks outs).2 h; rw [hb] at this; cases this
           simp only [runSteps]
-          have hnot : ¬ ((controlStep Cfg.fixed env tasks e outs w).1.rpc = Rpc.ok ∧
-              (controlStep Cfg.fixed env tasks e outs w).1.state = dst? e env.st ∧ (dst? e env.st).isSome = true) := by
+          have hnot : ¬ ((controlStep Cfg.code env tasks e outs w).1.rpc = Rpc.ok ∧
+              (controlStep Cfg.code env tasks e outs w).1.state = dst? e env.st ∧ (dst? e env.st).isSome = true) := by
             rw [hk]; simp
           simp only [hnot, false_and, ↓reduceIte]
           simp [judgeSteps, hc, hd, hk, judgeCtl, ha, Trans.reqOk, reached]
 
-theorem create_fixed (wf : Workflow) (outs : List Outcome)
-    (h0 : emptyWorkflow wf = false) (h1 : noncritLaunchFail wf.tasks = false) (h2 : earlyRunning wf.tasks = false)
-    (h3 : wf.notifyLost = false) :
-    judgeNew wf (targets (pair (tasks0 wf) outs)) (createEnvironment Cfg.fixed wf outs).1 = none ∧
-    (∀ env tasks, (createEnvironment Cfg.fixed wf outs).2 = some (env, tasks) →
+/-- No violation, or one inside an open DEPLOY corner. -/
+def DeployCorner (r : Option String) : Prop :=
+  r = none ∨ r = some "deploy_empty_workflow" ∨ r = some "deploy_misses_active" ∨ r = some "deploy_noncritical_blocks"
+
+/-- The scenario lies outside the three DEPLOY corners. -/
+def NoDeployCorner (wf : Workflow) : Prop :=
+  emptyWorkflow wf = false ∧ noncritLaunchFail wf.tasks = false ∧ earlyRunning wf.tasks = false ∧ wf.notifyLost = false
+
+/-- What is shown of a verdict on the model of the code as it is. -/
+def CodeVerdict (wf : Workflow) (r : Option String) : Prop := DeployCorner r ∧ (NoDeployCorner wf → r = none)
+
+theorem codeVerdict_none (wf : Workflow) : CodeVerdict wf none := ⟨Or.inl rfl, fun _ => rfl⟩
+
+theorem create_code (wf : Workflow) (outs : List Outcome) :
+    CodeVerdict wf (judgeNew wf (targets (pair (tasks0 wf) outs)) (createEnvironment Cfg.code wf outs).1) ∧
+    (∀ env tasks, (createEnvironment Cfg.code wf outs).2 = some (env, tasks) →
       env.pending = [] ∧ env.st = .CONFIGURED ∧ tasks = afterCommand (tasks0 wf) outs) := by
   unfold createEnvironment
   cases hdep : deployBody wf.tasks wf.calls wf.notifyLost with
@@ -703,19 +756,36 @@ theorem create_fixed (wf : Workflow) (outs : List Outcome)
   | error =>
     simp only
     refine ⟨?_, by intro _ _ h; cases h⟩
-    have hl : allCriticalLaunched wf.tasks = false := by
-      cases h : allCriticalLaunched wf.tasks
-      · rfl
-      · have := (C02_deploy_iff_partial wf.tasks wf.calls wf.notifyLost h0 h1 h2 h3).2 h; rw [hdep] at this; cases this
-    simp [judgeNew, hl, Trans.reqOk]
+    cases hl : allCriticalLaunched wf.tasks
+    · have : judgeNew wf (targets (pair (tasks0 wf) outs))
+          { ev := none, rpc := .err, state := none, after := none, cmd := [],
+            runningAcked := (!wf.tasks.isEmpty || wf.calls != 0) && wf.tasks.all (fun t => t.2 = .ok || t.2 = .okEarly) } = none := by
+        simp [judgeNew, hl, Trans.reqOk]
+      rw [this]; exact codeVerdict_none wf
+    · cases ha : allCriticalAcked (targets (pair (tasks0 wf) outs))
+      · have : judgeNew wf (targets (pair (tasks0 wf) outs))
+            { ev := none, rpc := .err, state := none, after := none, cmd := [],
+              runningAcked := (!wf.tasks.isEmpty || wf.calls != 0) && wf.tasks.all (fun t => t.2 = .ok || t.2 = .okEarly) } = none := by
+          simp [judgeNew, hl, ha, Trans.reqOk]
+        rw [this]; exact codeVerdict_none wf
+      · -- every critical task started and would have acknowledged, yet DEPLOY failed: one of the three DEPLOY corners
+        have hin : ¬ NoDeployCorner wf := by
+          rintro ⟨h0, h1, h2, h3⟩
+          have := (C02_deploy_iff_partial wf.tasks wf.calls wf.notifyLost h0 h1 h2 h3).2 hl
+          rw [hdep] at this; cases this
+        refine ⟨?_, fun h => absurd h hin⟩
+        cases h0 : emptyWorkflow wf <;> cases h2 : earlyRunning wf.tasks <;> cases h1 : noncritLaunchFail wf.tasks <;>
+          cases h3 : wf.notifyLost <;>
+          simp [judgeNew, hl, ha, Trans.reqOk, reached, DeployCorner, h0, h1, h2, h3]
+        exact absurd ⟨h0, h1, h2, h3⟩ hin
   | ok =>
     simp only
     have hl := deploy_ok_launched _ _ _ hdep
     have henv := new_env_ok _ rfl
-    have hiff := iff_fixed_ts .CONFIGURE (Or.inl rfl) (tasks0 wf) outs
+    have hiff := iff_code_ts .CONFIGURE (Or.inl rfl) (tasks0 wf) outs
     simp only [bodyFor] at hiff
-    cases hb : configureBody Cfg.fixed (targets (pair (tasks0 wf) outs)) with
-    | hang => exact absurd (show bodyFor Cfg.fixed .CONFIGURE _ = .hang from hb) (bodyFor_fixed_not_hang _ _)
+    cases hb : configureBody Cfg.code (targets (pair (tasks0 wf) outs)) with
+    | hang => exact absurd (show bodyFor Cfg.code .CONFIGURE _ = .hang from hb) (bodyFor_code_not_hang _ _)
     | error =>
       have ha : allCriticalAcked (targets (pair (tasks0 wf) outs)) = false := by
         cases h : allCriticalAcked (targets (pair (tasks0 wf) outs))
@@ -724,45 +794,57 @@ theorem create_fixed (wf : Workflow) (outs : List Outcome)
       simp only [tasks0] at hb
       simp only [hb]
       refine ⟨?_, by intro _ _ h; cases h⟩
-      simp [judgeNew, hl, ha, Trans.reqOk]
+      have : judgeNew wf (targets (pair (tasks0 wf) outs))
+          { ev := none, rpc := .err, state := none, after := none,
+            cmd := cmdIdx (wf.tasks.map (fun t => ({ critical := t.1, active := t.2 = .ok } : Task))) } = none := by
+        simp [judgeNew, hl, ha, Trans.reqOk]
+      rw [this]; exact codeVerdict_none wf
     | ok =>
       have ha := hiff.1 hb
       simp only [tasks0] at hb
       simp only [hb]
       refine ⟨?_, ?_⟩
-      · simp [judgeNew, hl, ha, Trans.reqOk, henv.2]
+      · have : judgeNew wf (targets (pair (tasks0 wf) outs))
+            { ev := none, rpc := .ok,
+              state := some (tryTransition (tryTransition ({} : Env) [] .DEPLOY true false).1 [] .CONFIGURE true false).1.st,
+              after := some (tryTransition (tryTransition ({} : Env) [] .DEPLOY true false).1 [] .CONFIGURE true false).1.st,
+              cmd := cmdIdx (wf.tasks.map (fun t => ({ critical := t.1, active := t.2 = .ok } : Task))) } = none := by
+          simp [judgeNew, hl, ha, Trans.reqOk, henv.2]
+        rw [this]; exact codeVerdict_none wf
       · intro env tasks h
         simp only [Option.some.injEq, Prod.mk.injEq] at h
         obtain ⟨h1, h2⟩ := h
         subst h1; subst h2
         exact ⟨henv.1, henv.2, rfl⟩
 
-theorem judge_cons_none (sc : Scenario) (o : Obs) (os : List Obs)
-    (hn : judgeNew sc.wf (targets (pair (tasks0 sc.wf) sc.configure)) o = none)
-    (hos : judgeSteps .CONFIGURED (afterCommand (tasks0 sc.wf) sc.configure) sc.steps os = none) :
-    judge sc (o :: os) = none := by
-  simp only [judge]
+/-- `judgeAll` of a run that starts with the NewEnvironment observation: any property that holds of "no violation",
+    of the verdict on NewEnvironment and of the verdict on the requests after it. -/
+theorem judgeAll_cons (P : Option String → Prop) (hP : P none) (sc : Scenario) (o : Obs) (os : List Obs)
+    (hn : P (judgeNew sc.wf (targets (pair (tasks0 sc.wf) sc.configure)) o))
+    (hos : P (judgeSteps .CONFIGURED (afterCommand (tasks0 sc.wf) sc.configure) sc.steps os)) :
+    P (judgeAll sc (o :: os)) := by
+  simp only [judgeAll]
   simp only [tasks0] at hn hos
-  rw [hn]
-  simp only
-  split
-  · exact hos
-  · rfl
+  revert hn
+  generalize judgeNew sc.wf _ _ = r
+  intro hn
+  cases r with
+  | some h => exact hn
+  | none =>
+    simp only
+    split
+    · exact hos
+    · exact hP
 
-/-- With the three repairs on, the model satisfies Spec.C02 on EVERY scenario whose workflow has a role, in which no
-    non-critical task fails to start, no TASK_RUNNING update overtakes the roster and the ACTIVE notification is not
-    dropped (the DEPLOY corners, for which
-    no small repair is proposed). -/
-theorem C02_spec_fixed (sc : Scenario) (h0 : emptyWorkflow sc.wf = false)
-    (h1 : noncritLaunchFail sc.wf.tasks = false) (h2 : earlyRunning sc.wf.tasks = false)
-    (h3 : sc.wf.notifyLost = false) :
-    judge sc (run Cfg.fixed sc) = none := by
-  obtain ⟨hn, hsome⟩ := create_fixed sc.wf sc.configure h0 h1 h2 h3
-  have hnil : judge sc [(createEnvironment Cfg.fixed sc.wf sc.configure).1] = none :=
-    judge_cons_none sc _ [] hn (judgeSteps_no_obs _ _ _)
+/-- The model of the code as it is, EVERY scenario: Spec.C02 (all corners named) is satisfied or the violation lies in
+    an open DEPLOY corner; outside the DEPLOY corners it is satisfied. -/
+theorem code_verdict (sc : Scenario) : CodeVerdict sc.wf (judgeAll sc (run Cfg.code sc)) := by
+  obtain ⟨hn, hsome⟩ := create_code sc.wf sc.configure
+  have hnil : CodeVerdict sc.wf (judgeAll sc [(createEnvironment Cfg.code sc.wf sc.configure).1]) :=
+    judgeAll_cons _ (codeVerdict_none _) sc _ [] hn (by rw [judgeSteps_no_obs]; exact codeVerdict_none _)
   unfold run
   simp only
-  cases hc : (createEnvironment Cfg.fixed sc.wf sc.configure).2 with
+  cases hc : (createEnvironment Cfg.code sc.wf sc.configure).2 with
   | none => exact hnil
   | some p =>
     obtain ⟨env, tasks⟩ := p
@@ -770,11 +852,42 @@ theorem C02_spec_fixed (sc : Scenario) (h0 : emptyWorkflow sc.wf = false)
     simp only
     split
     · exact hnil
-    · refine judge_cons_none sc _ _ hn ?_
-      have := steps_fixed sc.steps env tasks hp
+    · refine judgeAll_cons _ (codeVerdict_none _) sc _ _ hn ?_
+      have := steps_code sc.steps env tasks hp
       rw [hst] at this
-      rw [← ht]
-      exact this
+      rw [← ht, this]; exact codeVerdict_none _
+
+theorem judge_of_none (sc : Scenario) (os : List Obs) (h : judgeAll sc os = none) : judge sc os = none := by
+  simp [judge, h]
+
+theorem judge_of_corner (sc : Scenario) (os : List Obs) (h : DeployCorner (judgeAll sc os)) :
+    judge sc os = judgeAll sc os := by
+  rcases h with h | h | h | h <;> rw [judge, h] <;> decide
+
+/-- The code as it is satisfies Spec.C02 on EVERY scenario whose workflow has a role, in which no non-critical task
+    fails to start, no TASK_RUNNING update overtakes the roster and the ACTIVE notification is not dropped (the three
+    DEPLOY corners, which stay open findings): every request sequence, every critical / active mix, every outcome
+    assignment, idle deaths included. -/
+theorem C02_spec_code (sc : Scenario) (h0 : emptyWorkflow sc.wf = false)
+    (h1 : noncritLaunchFail sc.wf.tasks = false) (h2 : earlyRunning sc.wf.tasks = false)
+    (h3 : sc.wf.notifyLost = false) :
+    judge sc (run Cfg.code sc) = none :=
+  judge_of_none sc _ ((code_verdict sc).2 ⟨h0, h1, h2, h3⟩)
+
+/-- …and on ALL scenarios nothing else is left: whenever Spec.C02 rejects what the model of the code as it is does,
+    the verdict names one of the three open DEPLOY corners. -/
+theorem C02_only_deploy_corners_code (sc : Scenario) (h : String) (hj : judge sc (run Cfg.code sc) = some h) :
+    h = "deploy_empty_workflow" ∨ h = "deploy_misses_active" ∨ h = "deploy_noncritical_blocks" := by
+  have hv := (code_verdict sc).1
+  rw [judge_of_corner sc _ hv] at hj
+  rcases hv with hv | hv | hv | hv <;> rw [hv] at hj <;> simp at hj <;> simp [← hj]
+
+/-- The open corners are EXHAUSTIVE for the code as it is: the verdict the correspondence harness computes is never the
+    anonymous "-" on what the model does. With the correspondence run (model = implementation) this is what makes
+    "only KNOWN-FINDING lines" a complete account — and a return of one of the four repaired defects a plain violation. -/
+theorem C02_corners_exhaustive (sc : Scenario) : judge sc (run Cfg.code sc) ≠ some "-" := by
+  intro hj
+  rcases C02_only_deploy_corners_code sc "-" hj with h | h | h <;> revert h <;> decide
 
 /-! ## non-vacuity -/
 
